@@ -9,6 +9,10 @@ use crate::interpreter::variant_casts::VariantCasts;
 pub fn run<S: InterpreterTrait>(interpreter: &mut S) -> Result<(), RuntimeError> {
     let s = interpreter.context()[0].to_str_unchecked();
     let bytes: Vec<u8> = to_ascii_bytes(s);
+    if bytes.len() != 8 {
+        // CVD needs the 8 bytes of a double
+        return Err(RuntimeError::IllegalFunctionCall);
+    }
     let f = bytes_to_f64(&bytes);
     interpreter
         .context_mut()
